@@ -1238,7 +1238,14 @@ bool RegularExpression::matchDot(Context* const context, XMLSize_t& offset) cons
 
     if (!isSet(context->fOptions, SINGLE_LINE)) {
 
-        if (RegxUtil::isEOLChar(strCh))
+        // XML Schema defines '.' as [^\n\r]; isEOLChar takes an XMLCh, so a
+        // supplementary character must not be passed (truncated) to it
+        if (isSet(context->fOptions, XMLSCHEMA_MODE)) {
+
+            if (strCh == chLF || strCh == chCR)
+                return false;
+        }
+        else if (strCh < 0x10000 && RegxUtil::isEOLChar((XMLCh) strCh))
             return false;
     }
 
